@@ -1,7 +1,7 @@
 (* C13 — property theorems only (mechanisms; the whole-grammar equality is validated by the
    differential runs, see DESIGN). *)
 From Coq Require Import List Bool ZArith QArith String Ascii.
-From V Require Import C13.Tokenizer C13.TokProofs C13.Mechanisms C13.MechProofs.
+From V Require Import C13.Tokenizer C13.TokProofs C13.Mechanisms C13.MechProofs C13.Lines C13.LinesProofs.
 From V Require Import Extracted.FFSections.
 Import ListNotations.
 
@@ -62,6 +62,85 @@ Print Assumptions bang_is_zero_weight.
 Theorem weights_sum_to_one : forall n, (0 < n)%nat -> fold_right Qplus 0%Q (repeat (1 # Pos.of_nat n) n) == 1.
 Proof. exact weights_sum_to_one_lemma. Qed.
 Print Assumptions weights_sum_to_one.
+
+Local Open Scope nat_scope.
+(* ---- the content lines of a block (C13/Lines.v: _get_atoms, _base_parser, _treat_block_interaction_atoms, _parse_block_atom) ---- *)
+
+(* An interaction line of a block written as declared names, the delimiter, parameters and an optional meta token is read
+   back as exactly that, for a section of free or of matching fixed size. *)
+Theorem interaction_line_read_back : forall names natoms refs params meta,
+  Forall (name_ok names) refs -> no_delim params ->
+  (natoms = None \/ natoms = Some (List.length refs)) ->
+  match meta with Some m => is_attr m = true | None => match List.rev params with m :: _ => is_attr m = false | [] => True end end ->
+  base_parse_block names natoms false (refs ++ delim :: params ++ match meta with Some m => [m] | None => [] end)
+  = inr {| i_atoms := refs; i_params := params; i_meta := meta |}.
+Proof. exact interaction_line_roundtrip. Qed.
+Print Assumptions interaction_line_read_back.
+
+(* Atom references with their bracketed attributes: a fixed-size section takes exactly its number of atoms, whatever
+   plain token follows; with the delimiter every atom in front of it is taken. *)
+Theorem fixed_size_atoms_taken : forall k atoms, Forall wf_atom atoms -> forall found post,
+  found + List.length atoms = k -> plain_head post -> get_atoms (Some k) found (flat atoms ++ post) = inr (atoms, post).
+Proof. exact get_atoms_fixed. Qed.
+Print Assumptions fixed_size_atoms_taken.
+
+Theorem atoms_up_to_delimiter : forall natoms atoms params, Forall wf_atom atoms ->
+  forall found, (natoms = None \/ exists k, natoms = Some k /\ found + List.length atoms <= k) ->
+  get_atoms natoms found (flat atoms ++ delim :: params) = inr (atoms, params).
+Proof. exact get_atoms_delim. Qed.
+Print Assumptions atoms_up_to_delimiter.
+
+(* Wrong atom count for a fixed-size interaction: too few or too many atoms in front of the delimiter are rejected, and
+   whatever is accepted has exactly the number of atoms of the section. *)
+Theorem wrong_atom_count_rejected : forall names k atoms params, Forall wf_atom atoms -> no_delim params ->
+  (List.length atoms < k -> base_parse_block names (Some k) false (flat atoms ++ delim :: params) = inl WrongCount) /\
+  (k < List.length atoms -> base_parse_block names (Some k) false (flat atoms ++ delim :: params) = inl TooManyAtoms).
+Proof. intros names k atoms params Ha Hp. split; [apply too_few_rejected|apply too_many_rejected]; assumption. Qed.
+Print Assumptions wrong_atom_count_rejected.
+
+Theorem accepted_line_has_section_size : forall names k tokens i,
+  base_parse_block names (Some k) false tokens = inr i -> List.length (i_atoms i) = k.
+Proof. exact base_parse_count. Qed.
+Print Assumptions accepted_line_has_section_size.
+
+(* A reference to an undefined block atom is rejected; every atom of an accepted line is a declared atom; an index
+   i >= 1 means the i-th declared atom. *)
+Theorem undefined_block_atom_rejected : forall names atoms a, In a atoms -> is_digits (fst a) = false -> ~ In (fst a) names ->
+  exists e, block_refs names atoms = inl e.
+Proof. intros names atoms a Hin Hd Hn. eapply block_refs_one_bad; [exact Hin|apply block_ref_undefined; assumption]. Qed.
+Print Assumptions undefined_block_atom_rejected.
+
+Theorem accepted_references_are_declared : forall names natoms tokens i,
+  base_parse_block names natoms false tokens = inr i -> Forall (fun x => In x names) (i_atoms i).
+Proof. exact base_parse_declared. Qed.
+Print Assumptions accepted_references_are_declared.
+
+Theorem index_means_that_atom : forall names r i, is_digits r = true -> num_of r = N.of_nat (S i) ->
+  block_ref names r = match nth_error names i with Some x => inr x | None => inl BadIndex end.
+Proof. exact block_ref_index. Qed.
+Print Assumptions index_means_that_atom.
+
+(* REFUTED for the index 0 (finding F23): the faithful model accepts it as the last atom of the block, so "a reference
+   to no atom is rejected" does not hold for it; the witness replayed on read_ff is the finding. *)
+Theorem index_zero_rejected_refuted : exists names r,
+  is_digits r = true /\ num_of r = 0%N /\ block_ref names r = inr (s2l "SC2") /\ names = map s2l ["BB"; "SC1"; "SC2"]%string.
+Proof. exists (map s2l ["BB"; "SC1"; "SC2"]%string), (s2l "0"). vm_compute. repeat split. Qed.
+Print Assumptions index_zero_rejected_refuted.
+
+(* The atoms of a block are the fifth columns of its [ atoms ] lines, each exactly once and in file order; a name that
+   is already there is rejected. *)
+Theorem block_atoms_once_in_order : forall lines names, block_atoms [] lines = inr names ->
+  Forall2 (fun l n => name_of l = Some n) lines names /\ NoDup names.
+Proof.
+  intros lines names H. destruct (block_atoms_spec lines [] names H) as (ns & F & E & D). cbn [app] in E. subst ns.
+  split; [exact F|apply D; constructor].
+Qed.
+Print Assumptions block_atoms_once_in_order.
+
+Theorem duplicate_block_atom_rejected : forall names tokens n,
+  name_of tokens = Some n -> In n names -> 6 <= List.length (strip_attr tokens) -> block_atom names tokens = inl DupAtom.
+Proof. exact block_atom_duplicate. Qed.
+Print Assumptions duplicate_block_atom_rejected.
 
 (* The section tables regenerated from the source: the top-level sections are the six known ones,
    exactly moleculetype/link/modification open a context, and every sub-section of a context is
